@@ -14,23 +14,39 @@ type kindT struct {
 	Class  string // int | uint | float | complex | string | bool
 	Bits   int    // integer width / float width (complex: total)
 	Signed bool
+	Under  string // for a defined type (`type Di8 int8`): the underlying basic type; "" for the basic types themselves
+}
+
+// basic returns the name of the underlying basic type.
+func (k kindT) basic() string {
+	if k.Under != "" {
+		return k.Under
+	}
+	return k.Name
 }
 
 var intKinds = []kindT{
-	{"int8", "int", 8, true}, {"int16", "int", 16, true}, {"int32", "int", 32, true}, {"int64", "int", 64, true}, {"int", "int", 64, true},
-	{"uint8", "uint", 8, false}, {"uint16", "uint", 16, false}, {"uint32", "uint", 32, false}, {"uint64", "uint", 64, false},
-	{"uint", "uint", 64, false}, {"uintptr", "uint", 64, false},
+	{"int8", "int", 8, true, ""}, {"int16", "int", 16, true, ""}, {"int32", "int", 32, true, ""}, {"int64", "int", 64, true, ""}, {"int", "int", 64, true, ""},
+	{"uint8", "uint", 8, false, ""}, {"uint16", "uint", 16, false, ""}, {"uint32", "uint", 32, false, ""}, {"uint64", "uint", 64, false, ""},
+	{"uint", "uint", 64, false, ""}, {"uintptr", "uint", 64, false, ""},
 }
 
-var floatKinds = []kindT{{"float32", "float", 32, true}, {"float64", "float", 64, true}}
-var complexKinds = []kindT{{"complex64", "complex", 64, true}, {"complex128", "complex", 128, true}}
-var stringKind = kindT{"string", "string", 0, false}
-var boolKind = kindT{"bool", "bool", 0, false}
+var floatKinds = []kindT{{"float32", "float", 32, true, ""}, {"float64", "float", 64, true, ""}}
+var complexKinds = []kindT{{"complex64", "complex", 64, true, ""}, {"complex128", "complex", 128, true, ""}}
+var stringKind = kindT{"string", "string", 0, false, ""}
+var boolKind = kindT{"bool", "bool", 0, false, ""}
+
+// definedKinds: defined types over basic kinds (their operands have yaegi type category linkedT: == and != go through
+// the interface-comparison arms of equal / notEqual)
+var definedKinds = []kindT{
+	{"Di8", "int", 8, true, "int8"}, {"Du16", "uint", 16, false, "uint16"}, {"Di", "int", 64, true, "int"},
+	{"Df64", "float", 64, true, "float64"}, {"Ds", "string", 0, false, "string"},
+}
 
 var kindByName = map[string]kindT{}
 
 func init() {
-	for _, ks := range [][]kindT{intKinds, floatKinds, complexKinds, {stringKind, boolKind}} {
+	for _, ks := range [][]kindT{intKinds, floatKinds, complexKinds, {stringKind, boolKind}, definedKinds} {
 		for _, k := range ks {
 			kindByName[k.Name] = k
 		}
